@@ -8,14 +8,14 @@ FUNCS = ['BulletproofGens::new', 'GeneratorsChain::new', 'AggregatedGensIter::ne
 
 def cases(tier):
     out = []
-    nm = [(8, 1), (2, 2), (4, 4), (64, 1)] if tier == 'quick' else [(8, 1), (2, 2), (4, 4), (64, 1), (1, 8), (16, 4), (32, 2), (8, 16)]
+    nm = [(8, 1), (2, 2), (4, 4), (64, 1), (1, 8)] if tier == 'quick' else [(8, 1), (2, 2), (4, 4), (64, 1), (1, 8), (16, 4), (32, 2), (8, 16)]
     for (n, m) in nm:
         caps = [m, 2 * m, 4 * m] + ([8 * m] if tier != 'quick' else [])
         for cp in caps:
             for cv in caps:
                 if cp == cv and cp != m:
                     continue
-                cfg = {'scenario': 'batch', 'n': n, 'x': 1 if (cp + cv) % 3 else 2, 'members': [{'m': m, 'cap': cp, 'values': 'sym', 'seeded': m == 1, 'tamper_statement': {'op': 'capacity', 'cap': cv}}],
+                cfg = {'scenario': 'batch', 'n': n, 'x': [1, 2, 6][(cp + cv + n) % 3], 'members': [{'m': m, 'cap': cp, 'values': 'sym', 'seeded': m == 1, 'tamper_statement': {'op': 'capacity', 'cap': cv}}],
                        'actions': ['VerifyOnly', 'RecoverAndVerify']}
                 out.append({'cfg': cfg, 'kind': 'single', 'name': 'n%d m%d proved with capacity %d verified with %d' % (n, m, cp, cv)})
     # batches mixing capacities, every choice of "largest member", every order for k <= 3
